@@ -127,7 +127,8 @@ def audit(pid, modules, names):
     if r.returncode != 0:
         raise Machinery("axiom audit failed to elaborate:\n" + out[-3000:])
     res = {}
-    for m in re.finditer(r"'([^']+)' depends on axioms: \[([^\]]*)\]|'([^']+)' does not depend on any axioms", out):
+    # (names may end in primes: non-greedy up to the quote that is followed by the fixed text)
+    for m in re.finditer(r"^'(.+?)' depends on axioms: \[([^\]]*)\]|^'(.+?)' does not depend on any axioms", out, re.M):
         if m.group(1):
             res[m.group(1)] = [a.strip() for a in m.group(2).replace("\n", " ").split(",") if a.strip()]
         else:
